@@ -3,6 +3,7 @@ package shard
 import (
 	"errors"
 
+	"github.com/nspcc-dev/neofs-node/internal/verifhook"
 	"github.com/nspcc-dev/neofs-node/pkg/local_object_storage/writecache"
 	apistatus "github.com/nspcc-dev/neofs-sdk-go/client/status"
 	cid "github.com/nspcc-dev/neofs-sdk-go/container/id"
@@ -39,11 +40,13 @@ func (s *Shard) deleteObjs(cnr cid.ID, addrs []oid.ID) error {
 			}
 		}
 	}
+	verifhook.Point("shard.delete.wc")
 
 	res, diff, err := s.metaBase.Delete(cnr, addrs)
 	if err != nil {
 		return err // stop on metabase error ?
 	}
+	verifhook.Point("shard.delete.meta")
 
 	if hasWriteCache {
 		for _, id := range res[len(addrs):] { // the rest are addrs, removed above
@@ -53,6 +56,7 @@ func (s *Shard) deleteObjs(cnr cid.ID, addrs []oid.ID) error {
 			}
 		}
 	}
+	verifhook.Point("shard.delete.wc2")
 
 	s.addObjectCounter(physicalObjType, diff.Phy)
 	s.addObjectCounter(rootObjType, diff.Root)
@@ -65,6 +69,7 @@ func (s *Shard) deleteObjs(cnr cid.ID, addrs []oid.ID) error {
 
 	for _, id := range res {
 		var addr = oid.NewAddress(cnr, id)
+		verifhook.Point("shard.delete.blob.before")
 		err = s.blobStor.Delete(addr)
 		if err == nil {
 			logOp(s.log, deleteOp, addr)
@@ -78,6 +83,7 @@ func (s *Shard) deleteObjs(cnr cid.ID, addrs []oid.ID) error {
 				zap.Error(err))
 		}
 	}
+	verifhook.Point("shard.delete.blobs")
 
 	return nil
 }
